@@ -21,5 +21,5 @@ pub mod common;
 use crate::checks::CheckDef;
 
 pub fn all() -> Vec<CheckDef> {
-    vec![c01::def(), c02::def(), c03::def(), c04::def(), c05::def(), c05::def_b(), c06::def(), c07::def(), c08::def(), c09::def(), c09::def_b(), c10::def(), c11::def(), c12::def(), c13::def(), c13::def_b(), c15::def(), c16::def(), c17::def(), c18::def(), c19::def()]
+    vec![c01::def(), c02::def(), c03::def(), c04::def(), c05::def(), c05::def_b(), c06::def(), c07::def(), c08::def(), c09::def(), c09::def_b(), c10::def(), c11::def(), c12::def(), c13::def(), c13::def_b(), c15::def(), c16::def(), c17::def(), c18::def(), c18::def_b(), c19::def()]
 }
